@@ -115,8 +115,14 @@ DefaultBenign(z) ==
 DefaultStall(z) ==
     {WithDefaults(Exch(cl, DefArgs, ReplyTo(FramingOf(cl), DefArgs, <<1, 0>>), <<Chunk(3)>>, "stall", 0, 0)) : cl \in Clients}
 
+\* a slow peer: the request is taken in 300 ms, the reply begins 250 ms later; the read timeout (400 ms) is for READING
+\* the reply - the time the write took does not count against it ("never times out on a complete, correct reply")
+SlowWrite(z) ==
+    {LET a == Args(3, 1, 10, 2, <<>>, <<>>, 0, 4660) R == ReplyTo(FramingOf(cl), a, <<1, 0>>)
+     IN Exch(cl, a, R, <<[k |-> "wslow", n |-> 300, e |-> ""], Chunk(3), Chunk(Len(R) - 3)>>, "none", 0, 0) : cl \in Clients}
+
 C07Cases(z) ==
-    (IF Part = 0 THEN UNION {HistCases(cl) : cl \in Clients} \cup DefaultBenign(0) ELSE {}) \cup
+    (IF Part = 0 THEN UNION {HistCases(cl) : cl \in Clients} \cup DefaultBenign(0) \cup SlowWrite(0) ELSE {}) \cup
     UNION {UNION {Benign(cl, a, ReplyTo(FramingOf(cl), a, v)) : v \in (IF a.fc = 17 THEN F17Variants ELSE {<<1, 0>>})} :
               cl \in Clients, a \in {x \in ReqShapes("s") : InPart(x.fc + 3)}}
     \cup UNION {Benign(cl, a, ReplyTo(FramingOf(cl), a, <<2, 2>>)) : cl \in Clients, a \in {x \in ReqShapes("m") : x.fc \in {1, 2, 3, 4, 23} /\ InPart(x.fc)}}
@@ -175,6 +181,9 @@ SeqCases(cl) ==
                    Exch(cl, a, R, <<Term("writeerr")>>, "writeerr", 0, 0),
                    Exch(cl, a, R, <<Chunk(3), Term("cancel")>>, "cancel", 0, 0),
                    Exch(cl, a, X, <<Chunk(Len(X))>>, "none", 0, 0),
+                   \* the caller had given up before the call, or gives up while the request is being written
+                   Exch(cl, a, R, <<Chunk(Len(R))>>, "precancel", 0, 0),
+                   Exch(cl, a, R, <<Chunk(Len(R))>>, "cancelonwrite", 0, 0),
                    ok}
     IN {[op |-> "seq", seq |-> <<f, ok, ok>>] : f \in firsts}
        \cup {[op |-> "seq", seq |-> <<f, g, ok>>] : f \in firsts, g \in firsts}
@@ -198,14 +207,18 @@ Corruptions(R) ==
     \cup UNION {{[R EXCEPT ![i] = v] : v \in {0, 255, (R[i] + 128) % 256}} : i \in 1..Len(R)}
     \cup {SubSeq(R, 1, n) : n \in 1..(Len(R) - 1)}
     \cup {R \o x : x \in {<<0>>, <<255, 255>>, <<R[Len(R) - 1], R[Len(R)]>>}}
-    \* the trailer blanked (a gateway that does not fill in the CRC), all ones, and every value of each trailer byte (thorough)
+    \* the trailer blanked (a gateway that does not fill in the CRC), all ones, 
     \cup {[R EXCEPT ![Len(R) - 1] = v, ![Len(R)] = v] : v \in {0, 255}}
-    \cup (IF Thorough THEN UNION {{[R EXCEPT ![i] = v] : v \in 0..255} : i \in {Len(R) - 1, Len(R)}} ELSE {})
     \* the two trailer bytes exchanged (a CRC sent high byte first), and neighbouring payload bytes exchanged
     \cup {[R EXCEPT ![Len(R) - 1] = R[Len(R)], ![Len(R)] = R[Len(R) - 1]]}
     \cup {[R EXCEPT ![i] = R[i + 1], ![i + 1] = R[i]] : i \in 1..(Len(R) - 2)}
     \cup {[j \in 1..Len(R) |-> IF j = i THEN 255 - R[j] ELSE IF j = Len(R) THEN (R[j] + 1) % 256 ELSE R[j]] : i \in 1..(Len(R) - 1)}
+\* thorough: every value of each trailer byte, delivered in one read
+TrailerSweep(cl, a, R) ==
+    IF Thorough THEN UNION {{Exch(cl, a, [R EXCEPT ![i] = v], <<Chunk(Len(R))>>, "none", 0, 0) : v \in (0..255) \ {R[i]}} : i \in {Len(R) - 1, Len(R)}}
+    ELSE {}
 CorruptCases(cl, a, R) ==
+    TrailerSweep(cl, a, R) \cup
     UNION {{Exch(cl, a, Rc, <<Chunk(Len(Rc))>>, "none", 0, 0)}
            \cup (IF Len(Rc) > 5 THEN {Exch(cl, a, Rc, <<Chunk(5), Chunk(Len(Rc) - 5)>>, "none", 0, 0)} ELSE {})
            \cup (IF Len(Rc) > 2 THEN {Exch(cl, a, Rc, <<Chunk(2), Empty("deadline"), Chunk(Len(Rc) - 2)>>, "none", 0, 0)} ELSE {}) :
